@@ -119,7 +119,7 @@ Section C11.
     EPutCfg t
     (C <| c_applied := i |> <| c_inline := touched i (view C) (rb_change P) |> <| c_ainline :=
     v_empty |>); EPutProp (t, i) (P <| p_apply := Some Done |> <| p_term := c_term C |>)],
-    RDone).
+    requeue_next t P).
   Proof. exact (@ok_effects V Ch Req D candidate candidate_rb rollback_of overlay commit_merge payload record_applied touched restore doc_ok v_empty d_empty ch_empty). Qed.
 
   (* ... and the resulting world *)
@@ -152,7 +152,7 @@ Section C11.
     EPutAValues t (restore (c_avalues C) (aview C));
     EPutCfg t
     (C <| c_applied := i |> <| c_inline := touched i (view C) (rb_change P) |> <| c_ainline :=
-    v_empty |>)], if p_next P =? 0 then RDone else RRequeueProp (t, p_next P)).
+    v_empty |>)], requeue_next t P).
   Proof. exact (@refusal_effects V Ch Req D candidate candidate_rb rollback_of overlay commit_merge payload record_applied touched restore doc_ok v_empty d_empty ch_empty). Qed.
 
   (* ... and the resulting world: devices and committed configuration as they were *)
@@ -274,7 +274,7 @@ Section C11.
     EPutCfg t
     (Ck <| c_applied := i |> <| c_inline := view Ck |> <| c_ainline :=
     v_empty |>)]
-    else [], if p_next P =? 0 then RDone else RRequeueProp (t, p_next P))
+    else [], requeue_next t P)
     ∧ (∃ C' : config,
     cfgs (step wk (LRec (CtlProp (t, i)) 2 o')) !! t = Some C'
     ∧ c_applied C' = i
@@ -293,7 +293,7 @@ Section C11.
     then
     [EPutAValues t (restore (c_avalues C) (aview C));
     EPutCfg t (C <| c_applied := i |> <| c_inline := view C |> <| c_ainline := v_empty |>)]
-    else [], if p_next P =? 0 then RDone else RRequeueProp (t, p_next P)).
+    else [], requeue_next t P).
   Proof. exact (@failed_pass V Ch Req D candidate candidate_rb rollback_of overlay commit_merge payload record_applied touched restore doc_ok v_empty d_empty ch_empty). Qed.
 
 End C11.
